@@ -426,11 +426,11 @@ class Interp:
                 return ('hook', e.id)
             if e.id in h.module.funcs:
                 return Closure(h.module.funcs[e.id].node, {}, None, None)
-            if getattr(h, 'native_regex', False) and not hasattr(h.module, 'mods'):
-                node_ = h.module.const_nodes.get('', {}).get(e.id)
+            for mod_ in (h.module.mods if hasattr(h.module, 'mods') else [h.module]):
+                node_ = mod_.const_nodes.get('', {}).get(e.id)
                 if isinstance(node_, ast.Call) and norm(node_.func) == 're.compile':
                     try:
-                        return ('regex', e.id, h.module.fold(node_.args[0], ''), h.module.fold(node_.args[1], '') if len(node_.args) > 1 else 0)
+                        return ('regex', e.id, mod_.fold(node_.args[0], ''), mod_.fold(node_.args[1], '') if len(node_.args) > 1 else 0)
                     except Exception:      # pylint: disable=broad-except
                         pass
             if e.id in h.module.consts.get('', {}) and isinstance(h.module.consts[''][e.id], (str, bytes, int, tuple, list, frozenset)):
